@@ -15,7 +15,9 @@ ASSUMPTIONS = [
 def default_nontrivial(r):
     return r.get("icls") == "ok"
 
-LEVEL_NOTE = ("Trusted: Lean kernel; axioms propext/Classical.choice/Quot.sound only; the hand-written model and its sampled "
-              "correspondence with the Rust code (harness + driver + generators); rounding is not modelled by the theorems "
-              "(deviation from the exact model is measured per case and bounded by tau).")
-TECHNIQUE = "Lean 4 theorems over an executable model + differential correspondence check against the Rust code"
+LEVEL_NOTE = ("Trusted: Lean kernel (leanchecker re-check in thorough); axioms propext/Classical.choice/Quot.sound only (audited every run); "
+              "the hand-written model, tied to /repo on every run by (a) the translation tie for the arithmetic core (rs2lean.py parser and "
+              "naming conventions trusted) and (b) the sampled correspondence check (harness + driver + generators trusted); rounding is not "
+              "modelled by the general theorems (deviation from the exact model is measured per case and bounded by tau); see DESIGN.md §4.")
+TECHNIQUE = ("Lean 4 theorems over an executable model; model tied to the code by a Rust-to-Lean translation checked by rfl-style "
+             "theorems plus a differential correspondence check; theorem predicates evaluated on the implementation's outputs")
